@@ -421,6 +421,21 @@ def section_e(rep):
                 rep.check("E-symbolic", what, eval_circuit(dsc, x, store), ref, rtol=1e-6, atol=1e-8)
 
             rep.guarded("E", what, run)
+        # a SECOND operator applied to a derivative circuit of order 2 (its layers are copied by reference): conjugation of a real circuit is
+        # the identity, so the result must still be the second derivative
+        fold, opt = FLAGS[n % 4]
+        what = tag(it["desc"], order=2, then="conjugate", fold=fold, optimize=opt)
+
+        def run_then():
+            dsc = SF.conjugate(SF.differentiate(sc, order=2))
+            ctx, dtc = bridge.compile_circuit(dsc, fold=fold, optimize=opt)
+            store = ParamStore(0)
+            bridge.sync_store_from_compiled(ctx, [dsc], store)
+            x = gen.gen_inputs(sc, 3, 4)
+            ref = derivative_reference(sc, x, store, 2)
+            rep.check("E-operand", what, bridge.eval_compiled(dtc, x, "sum-product"), ref, rtol=1e-6, atol=1e-8)
+
+        rep.guarded("E", what, run_then)
 
 
 # ----------------------------------------------------------------------------- section F
